@@ -59,6 +59,7 @@ class Report(object):
         self.decided = []
         self.notes = []
         self.floors = {}
+        self.gaps = []
         self.extra = {}
         self.t0 = time.time()
         self.rule_docs = {}
@@ -95,6 +96,15 @@ class Report(object):
             #  the floor only guards against *vacuous passes*)
             raise AnalysisError('rule %s matched %d instance(s), floor is %d %s'
                                 % (rule, got, n, what))
+
+    def guard(self, fn, *args, **kw):
+        """Run one group of rules; an AnalysisError inside it is recorded as an analysis *gap* and the other
+        groups still run.  At the end: violations => exit 1; no violation but a gap => ANALYSIS-ERROR, exit 2."""
+        try:
+            return fn(*args, **kw)
+        except AnalysisError as e:
+            self.gaps.append('%s: %s' % (getattr(fn, '__name__', 'rule group'), e))
+            return None
 
     def assume(self, text):
         if text not in self.assumptions:
@@ -206,11 +216,18 @@ def finish(rep, seed=0, quiet=False):
         'violations': len(viols),
     }
     ev['coverage'].update(rep.extra)
+    if rep.gaps:
+        ev['coverage']['analysis_gaps'] = list(rep.gaps)
     with open(os.path.join(EVIDENCE_DIR, '%s.json' % rep.pid), 'w') as f:
         json.dump(ev, f, indent=1, sort_keys=True, default=str)
     if not quiet:
         for line in out:
             print(line)
-        print('%s %s: %d obligations, %d discharged, %d known, %d violations (%.2fs)'
-              % (rep.pid, rep.tier, n_ob, n_ok, len(knowns), len(viols), wall))
-    return EXIT_VIOLATION if viols else EXIT_OK
+        for g in rep.gaps:
+            print('ANALYSIS-ERROR property=%s %s' % (rep.pid, g))
+        print('%s %s: %d obligations, %d discharged, %d known, %d violations%s (%.2fs)'
+              % (rep.pid, rep.tier, n_ob, n_ok, len(knowns), len(viols),
+                 ', %d rule group(s) could not be analysed' % len(rep.gaps) if rep.gaps else '', wall))
+    if viols:
+        return EXIT_VIOLATION
+    return EXIT_ANALYSIS if rep.gaps else EXIT_OK
